@@ -1,6 +1,9 @@
 import EaselModel.Core.Proto
 import EaselModel.Random.Model
 import EaselModel.Random.Choose
+import EaselModel.Random.Deal64
+import EaselModel.Random.Samplers
+import EaselModel.Generated.RandTables
 /-! Line-protocol driver for the C09 model. -/
 open EaselModel EaselModel.Proto EaselModel.Random EaselModel.MTP
 
@@ -53,6 +56,23 @@ def parseF32List (s : String) : List Float :=
 
 def dchooseCDF (roll : Float) (cdf : List Float) : Option Nat :=
   dchooseCDFgo roll (cdf.getLastD 0.0) cdf 0
+
+/-- test hook `pokeraw64 w= off=`: overwrite the table word `off` draws ahead (drawing first while that word lies beyond
+    the table, exactly as the harness does) -/
+def poke64Adv (off : Nat) (r : Rng64) : Nat → Rng64
+  | 0 => r
+  | f+1 => if r.st.mti + off ≥ 312 then poke64Adv off (r.next).2 f else r
+
+def poke64At (r : Rng64) (w : UInt64) (off : Nat) : Rng64 :=
+  let r1 := poke64Adv off r 400
+  { r1 with st := { r1.st with mt := r1.st.mt.setIfInBounds (r1.st.mti + off) w } }
+
+/-- answer of a sampler op: the new generator state and the printed value, or `nohalt` / `fault` -/
+def sres {α : Type} (s : S) (r : SRes (α × Rng)) (pr : α → String) : S × String :=
+  match r with
+  | .ok (x, r') => ({ s with r := r' }, pr x)
+  | .nofuel => (s, "nohalt")
+  | .fault => (s, "fault")
 
 def step (s : S) (line : String) : S × String :=
   let ws := words line
@@ -122,7 +142,7 @@ def step (s : S) (line : String) : S × String :=
     | none => (s, "bad-op")
   | "pokeraw64" :: _ =>
     match argNat? ws "w" with
-    | some w => ({ s with r64 := s.r64.pokeRaw (UInt64.ofNat w) }, "ok")
+    | some w => ({ s with r64 := poke64At s.r64 (UInt64.ofNat w) ((argNat? ws "off").getD 0) }, "ok")
     | none => (s, "bad-op")
   | "dchoosecdf" :: _ =>
     let p := parseBitsList ((arg? ws "p").getD "")
@@ -146,7 +166,13 @@ def step (s : S) (line : String) : S × String :=
       | some (v, r) => ({ s with r64 := r }, s!"ok {v}")
       | none => (s, "nohalt")
     | none => (s, "bad-op")
-  | "deal64" :: _ => (s, "unmodelled")     -- Vitter's algorithm D: monitored on the implementation only
+  | "deal64" :: _ =>                       -- Vitter's method D + method A, binary64 through the `Float` instance of `VOps`
+    match argNat? ws "m", argNat? ws "n" with
+    | some m, some n =>
+      match s.r64.deal64 m n fuel with
+      | some (out, r) => ({ s with r64 := r }, "ok " ++ ",".intercalate (out.map toString))
+      | none => (s, "nohalt")
+    | _, _ => (s, "bad-op")
   | "int64" :: _ =>
     let (x, r) := s.r64.next
     ({ s with r64 := r }, s!"ok {(x >>> 1).toNat}")
@@ -159,6 +185,23 @@ def step (s : S) (line : String) : S × String :=
   | "dblopen" :: _ =>
     let (x, r) := s.r64.next
     ({ s with r64 := r }, s!"ok {hex64 ((Float.ofNat (x >>> 12).toNat + 0.5) * (1.0/4503599627370496.0)).toBits}")
+  | "gauss" :: _ =>
+    match parseBitsList ((arg? ws "mean").getD ""), parseBitsList ((arg? ws "sd").getD "") with
+    | [mean], [sd] => sres s (gaussian Rng.next fuel fuel Generated.RandTables.gaussTables mean sd s.r) fun x => s!"ok {hex64 x.toBits}"
+    | _, _ => (s, "bad-op")
+  | "gamma" :: _ =>
+    match parseBitsList ((arg? ws "a").getD "") with
+    | [a] => sres s (gamma Rng.next fuel fuel a s.r) fun x => s!"ok {hex64 x.toBits}"
+    | _ => (s, "bad-op")
+  | "dirichlet" :: _ =>
+    let alpha : List Float := match arg? ws "alpha" with
+      | some al => parseBitsList al
+      | none => List.replicate ((argNat? ws "k").getD 1) 1.0        -- alpha = NULL
+    sres s (dirichlet Rng.next fuel fuel alpha s.r) fun p => "ok " ++ ",".intercalate (p.map fun x => hex64 x.toBits)
+  | "mem" :: _ =>
+    sres s (rndMem Rng.next fuel ((argNat? ws "n").getD 0) [] s.r) fun bs => "ok " ++ hexOrDash (bs.map UInt8.ofNat)
+  | "floatstr" :: _ =>
+    sres s (floatString Rng.next fuel s.r) fun cs => "ok " ++ String.ofList cs
   | _ => (s, "bad-op")
 
 def main : IO Unit := runDriver ({} : S) step
